@@ -48,6 +48,7 @@ int idn2_to_ascii_8z(const char *input, char **output, int flags)
     return 0;
 }
 const char *idn2_strerror(int rc) { (void) rc; return "idn"; }
+void idn2_free(void *p) { free(p); }
 #endif
 
 #ifdef VF_STUB_IP
